@@ -220,20 +220,22 @@ EncVec(elems) == <<Nat2E(Len(elems))>> \o elems
 \* bits: sequence of BOOLEAN
 EncRawBits(bits) == LET n == Len(bits) IN
     <<Nat2E(n)>> \o EncVec([k \in 1..CeilDiv(n, 64) |-> {j \in 0..63 : 64 * (k - 1) + j < n /\ bits[64 * (k - 1) + j + 1]}])
-\* items: naturals below 2^w
+\* items: naturals below 2^w (and below 2^31: bits 31 .. w - 1 of an item are 0, for any width up to 64)
+NatBit(v, j) == IF j >= 31 THEN FALSE ELSE (v \div 2^j) % 2 = 1
 EncInt(w, items) == <<Nat2E(Len(items)), Nat2E(w)>> \o
-    EncRawBits([k \in 1..(Len(items) * w) |-> (items[((k - 1) \div w) + 1] \div (2^((k - 1) % w))) % 2 = 1])
+    EncRawBits([k \in 1..(Len(items) * w) |-> NatBit(items[((k - 1) \div w) + 1], (k - 1) % w)])
 Absent == <<{}>>
 \* bits: sequence of BOOLEAN, support structures absent
 EncBV(bits) == <<Nat2E(Cardinality({i \in 1..Len(bits) : bits[i]}))>> \o EncRawBits(bits) \o Absent \o Absent \o Absent
-\* n: universe, ps: increasing sequence of positions, w: low width (1..30 in the model)
+\* n: universe (below 2^31), ps: increasing sequence of positions, w: low width - ANY width 1..64 the document admits
+\* (for w >= 31 every position is its own low part and there is a single bucket)
 EncSparse(n, ps, w) ==
     LET m == Len(ps)
         nb == Buckets(n, w)
         \* high: for each bucket its integers as 1s, then a 0
-        highOnes == {(ps[i] \div 2^w) + (i - 1) : i \in 1..m}
+        highOnes == {(IF w >= 31 THEN 0 ELSE ps[i] \div 2^w) + (i - 1) : i \in 1..m}
         high == [k \in 1..(m + nb) |-> (k - 1) \in highOnes]
-    IN <<Nat2E(n)>> \o EncBV(high) \o EncInt(w, [i \in 1..m |-> ps[i] % 2^w])
+    IN <<Nat2E(n)>> \o EncBV(high) \o EncInt(w, [i \in 1..m |-> IF w >= 31 THEN ps[i] ELSE ps[i] % 2^w])
 \* code units of a natural, little-endian 3-bit payload with continuation flag
 RECURSIVE Units(_)
 Units(v) == IF v < 8 THEN <<v>> ELSE <<(v % 8) + 8>> \o Units(v \div 8)
